@@ -32,7 +32,17 @@ def backslash_runs():
         for k in range(1, 6):
             out.append('\\' * k + m)
             out.append('a' + '\\' * k + m)
+    # backslash runs in front of characters that repr() / printable exports treat specially
+    for m in ("'", '"', 'n', 't', 'x41', 'u0041', 'N', '0', '1', ' ', '\n', 'Z', 'A', 'b', 'g'):
+        for k in (1, 2, 3):
+            out.append('\\' * k + m)
+            out.append('a' + '\\' * k + m + 'b')
     return out
+
+
+# literals that are format templates (messages built with % / str.format / f-strings) or quote mixtures
+TEMPLATES = ['%', '100%', '%d', '%s items', '%%', '%(a)s', 'a%', '{0}', '{}', '{a}', '{0!r}', '{{', '}}', '{0', "'", '"', "'\"", "a'b", 'a"b',
+             "\\'", "\\'\"", "'\\", "it's \\'q\\'", '\\"', "\\\\'", '$&', '\\g<0>', '\\0']
 
 
 def long_strings(rnd, n):
@@ -54,6 +64,7 @@ def hostile_strings(tier, rnd):
     out += [a + b for a in SIGMA2 for b in SIGMA2]
     out += LOOKALIKES
     out += backslash_runs()
+    out += TEMPLATES
     if tier == 'thorough':
         out += [a + b + c for a in SIGMA2 for b in SIGMA2 for c in SIGMA2 if rnd.random() < 0.5]
     n = 400 if tier == 'quick' else 6000
